@@ -12,6 +12,7 @@ import (
 	"errors"
 	"flag"
 	"fmt"
+	"io"
 	"os"
 	"os/exec"
 	"sort"
@@ -93,13 +94,22 @@ func (s *sockSim) Close(fd int) error {
 }
 
 func newClient(s *sockSim, bufSize int) (*libaudit.NetlinkClient, error) {
+	return newClientW(s, bufSize, nil)
+}
+
+// newClientW: with a response writer (the debugging copy of everything read).
+func newClientW(s *sockSim, bufSize int, w io.Writer) (*libaudit.NetlinkClient, error) {
 	vsys.Install(s)
 	var buf []byte
 	if bufSize > 0 {
 		buf = make([]byte, bufSize)
 	}
-	return libaudit.NewNetlinkClient(syscall.NETLINK_ROUTE, 0, buf, nil)
+	return libaudit.NewNetlinkClient(syscall.NETLINK_ROUTE, 0, buf, w)
 }
+
+type failWriter struct{}
+
+func (failWriter) Write(p []byte) (int, error) { return 0, errors.New("disk full") }
 
 type reporter struct {
 	run *ev.Run
@@ -344,6 +354,59 @@ func checkReceive(r reporter, tier string) (evals, nontrivial int64) {
 						}
 					}
 				}
+			}
+		}
+	}
+	// the optional response writer (resp): nil / a buffer / a failing writer.  The verdict on
+	// the datagram must not depend on it (except that a failing writer may add an error), and a
+	// working writer receives exactly the bytes read for accepted datagrams.
+	for _, n := range []int{0, 1, 15, 16, 17, 20, 36, 64} {
+		for _, snd := range senders {
+			for wi := 0; wi < 2; wi++ {
+				content := make([]byte, n)
+				for i := range content {
+					content[i] = byte(i + 1)
+				}
+				s := &sockSim{}
+				var w io.Writer
+				buf := &bytes.Buffer{}
+				if wi == 0 {
+					w = buf
+				} else {
+					w = failWriter{}
+				}
+				nc, err := newClientW(s, 16+8970, w)
+				if err != nil {
+					r.run.Errorf("NewNetlinkClient: %v", err)
+					return
+				}
+				ac := &libaudit.AuditClient{Netlink: nc}
+				s.recvQ = append(s.recvQ, recvAnswer{b: content, from: snd.sa})
+				m, err := ac.Receive(true)
+				evals++
+				accept := snd.ok && n >= 16
+				switch {
+				case wi == 1:
+					if err == nil || m != nil {
+						if accept {
+							r.rep("receive-writer-error-lost", "Receive with a failing response writer returned data for a %d-byte kernel datagram", n)
+						} else {
+							r.rep("receive-accepted-with-writer", "Receive with a response writer returned data (type %v) for a %d-byte datagram from sender %s", m, n, snd.name)
+						}
+						continue
+					}
+				case accept:
+					if err != nil || m == nil || !bytes.Equal(m.Data, content[16:]) || !bytes.Equal(buf.Bytes(), content) {
+						r.rep("receive-with-writer", "Receive with a response writer: err=%v, writer got %d bytes for a %d-byte kernel datagram", err, buf.Len(), n)
+						continue
+					}
+				default:
+					if err == nil || m != nil {
+						r.rep("receive-accepted-with-writer", "Receive with a response writer attached returned data (type %v) for a %d-byte datagram from sender %s; want an error and no message", m, n, snd.name)
+						continue
+					}
+				}
+				nontrivial++
 			}
 		}
 	}
